@@ -370,6 +370,10 @@ type reader struct {
 	decMsg  atomic.Value
 	closed  atomic.Bool
 	delayNs int
+	lastTag atomic.Int64 // write index carried by the last tagged packet the callback saw (TCP: in order)
+	playedW atomic.Int64 // number of writes begun when its last PLAY completed
+	staying atomic.Bool  // in its last play window, waiting for the writer to finish
+	tailOK  atomic.Bool  // the last packet its queue accepted has arrived (or the long wait for it expired)
 }
 
 func protoPtr(p gortsplib.Protocol) *gortsplib.Protocol { return &p }
@@ -483,6 +487,9 @@ func (sc *scenario) newReader1(h *hop, k int, port int, transport string, rng *h
 		for f, forma := range medi.Formats {
 			mi, fi := i, f
 			c.OnPacketRTP(medi, forma, func(pkt *rtp.Packet) {
+				if p := pkt.Payload; len(p) >= 8 && p[0] == 0xA5 {
+					rd.lastTag.Store(int64(binary.BigEndian.Uint32(p[3:7])))
+				}
 				d := &delivery{r: k, m: mi, f: fi, seq: pkt.SequenceNumber, ts: pkt.Timestamp, marker: pkt.Marker,
 					pt: pkt.PayloadType, ssrc: pkt.SSRC, payload: append([]byte(nil), pkt.Payload...), keep: pkt, w: -1}
 				h.log(event{kind: evD, r: k, d: d})
@@ -604,9 +611,13 @@ func (sc *scenario) runPlay() *runResult {
 				last := cy == cycles-1
 				if last && (k == 0 || r.Intn(2) == 0) {
 					// stay until the writer has finished and everything has drained
+					hp.mu.Lock()
+					rd.playedW.Store(int64(len(hp.writes)))
+					hp.mu.Unlock()
+					rd.staying.Store(true)
 					<-writerDone
 					<-stopAll
-					drained = drainOK.Load()
+					drained = rd.tailOK.Load()
 					return
 				}
 				select {
@@ -640,6 +651,43 @@ func (sc *scenario) runPlay() *runResult {
 	}, sc.q)
 	close(writerDone)
 	drainOK.Store(waitDrain(hp, 3*time.Second))
+	// TCP readers that stay to the end: wait until the last packet their queue accepted has arrived.  A slow
+	// reader can stall for seconds (zero window, persist timer), so the wait is long; if it expires the
+	// packet counts as lost (the oracle reports tcp-missing).
+	{
+		rmu.Lock()
+		rs := append([]*reader(nil), readers...)
+		rmu.Unlock()
+		deadline := time.Now().Add(10 * time.Second)
+		for k, rd := range rs {
+			if rd == nil || !rd.info.tcp || !rd.staying.Load() {
+				continue
+			}
+			target := int64(-1)
+			hp.mu.Lock()
+			for i := len(hp.writes) - 1; i >= 0; i-- {
+				w := hp.writes[i]
+				has := false
+				for _, se := range rd.info.setup {
+					if se.m == w.m {
+						has = true
+					}
+				}
+				if int64(w.idx) < rd.playedW.Load() {
+					break
+				}
+				if has && !w.hasFull(k) && len(w.payload) >= 8 {
+					target = int64(w.idx)
+					break
+				}
+			}
+			hp.mu.Unlock()
+			for rd.lastTag.Load() < target && time.Now().Before(deadline) {
+				time.Sleep(10 * time.Millisecond)
+			}
+			rd.tailOK.Store(true)
+		}
+	}
 	close(stopAll)
 	wg.Wait()
 	close(errs)
@@ -668,7 +716,7 @@ func waitDrain(hp *hop, max time.Duration) bool {
 		hp.mu.Unlock()
 		if n == last {
 			stable++
-			if stable >= 15 {
+			if stable >= 30 {
 				return true
 			}
 		} else {
@@ -1074,9 +1122,7 @@ type shadow struct {
 	active  bool
 	w       int // 0 none 1 open 2 closed
 	started bool
-	queue   []int // open writer: FIFO
-	ring    []int // closed writer: slots (-1 = empty), positions relative to the read index at Close
-	rp, wp  int
+	queue   []int // the writer's FIFO (still drained by the consumer while the writer is detached)
 	wire    []int
 	pendAct bool
 	gone    bool
@@ -1224,20 +1270,10 @@ func (hp *hop) buildTrace(forced map[[2]int]int) (string, []int) {
 			ctl(cStart, r)
 			s.started = true
 		}
-		if s.w == 1 {
-			if len(s.queue) == 0 {
-				return false
-			}
+		if (s.w == 1 || s.w == 2) && len(s.queue) > 0 {
 			ctl(cDrain, r)
 			s.wire = append(s.wire, s.queue[0])
 			s.queue = s.queue[1:]
-			return true
-		}
-		if s.w == 2 && len(s.ring) > 0 && s.ring[s.rp] >= 0 {
-			ctl(cDrain, r)
-			s.wire = append(s.wire, s.ring[s.rp])
-			s.ring[s.rp] = -1
-			s.rp = (s.rp + 1) % len(s.ring)
 			return true
 		}
 		return false
@@ -1255,31 +1291,19 @@ func (hp *hop) buildTrace(forced map[[2]int]int) (string, []int) {
 			drainOne(r)
 		}
 	}
-	// asyncprocessor.Close: the slots are cleared, the indices stay len(queue) apart
+	// destroyWriter, first half: writer = nil.  Nothing is pushed any more; the consumer keeps draining.
 	closeW := func(r int) {
 		s := sh[r]
-		drainWilling(r)
 		ctl(cCloseW, r)
-		n := len(s.queue)
 		s.w = 2
-		s.queue = nil
-		s.ring = make([]int, hp.q)
-		for i := range s.ring {
-			s.ring[i] = -1
-		}
-		s.rp, s.wp = 0, n%hp.q
 	}
+	// destroyWriter, second half: asyncprocessor.Close drops what is still queued and joins the consumer
 	nilW := func(r int) {
 		s := sh[r]
-		// what the consumer still ran before it was joined: the closures under its read position that
-		// are delivered later
-		for s.w == 2 && s.started && len(s.ring) > 0 && s.ring[s.rp] >= 0 && will[r][s.ring[s.rp]] {
-			if !drainOne(r) {
-				break
-			}
-		}
+		// what the consumer still ran before that: the queued closures that are delivered later
+		drainWilling(r)
 		ctl(cNilW, r)
-		s.w, s.queue, s.ring = 0, nil, nil
+		s.w, s.queue = 0, nil
 	}
 	consumed := map[int]bool{} // control events already replayed (moved before a write they overlap with)
 	playReq := func(r int) {
@@ -1454,7 +1478,7 @@ func (hp *hop) buildTrace(forced map[[2]int]int) (string, []int) {
 				if w.hasFull(r) {
 					// the model must find the queue full by itself; if it will not, the writer was closed
 					// earlier than assumed: Q accepted pushes before this one
-					explained := (s.w == 1 && len(s.queue) >= hp.q) || (s.w == 2 && s.ring[s.wp] >= 0)
+					explained := s.w == 1 && len(s.queue) >= hp.q
 					if !explained {
 						reject(r)
 					}
@@ -1462,51 +1486,18 @@ func (hp *hop) buildTrace(forced map[[2]int]int) (string, []int) {
 				}
 				s.accepted = append(s.accepted, w.idx)
 				tcp := hp.readers[r].tcp
-				// While a stop is in progress the writer is closed at some instant the log does not show.
-				// Keep it open as long as the observations allow; close it (discarding the queue) when a
-				// packet that will be delivered meets queued packets that never are, or when room is
-				// needed and the queue head is a packet that is never delivered.
-				if s.w == 1 && tcp && s.ph == 3 && !s.closing {
-					stale := false
-					for _, x := range s.queue {
-						if !will[r][x] {
-							stale = true
-						}
-					}
-					if will[r][w.idx] && stale {
-						closeW(r)
-					} else if len(s.queue) >= hp.q && !will[r][s.queue[0]] {
-						closeW(r)
-					}
+				// While a stop is in progress the writer is detached at some instant the log does not show.
+				// Keep it attached as long as the observations allow; detach it when room would be needed
+				// and the queue head is a packet that is never delivered (over TCP it cannot have left).
+				if s.w == 1 && tcp && s.ph == 3 && !s.closing && len(s.queue) >= hp.q && !will[r][s.queue[0]] {
+					closeW(r)
 				}
 				if s.w == 2 {
-					// closed but not yet joined: Push only looks at the slot under the write index; the
-					// consumer may still run what lands under its read index
-					if s.ring[s.wp] >= 0 {
-						// the slot is taken and no queue-full was reported: the consumer must have run
-						// everything from its read position up to that slot - possible only if it is still
-						// alive and (over TCP) all of that is delivered later; otherwise the writer is gone
-						ok := s.started
-						n := len(s.ring)
-						for j := s.rp; ok; j = (j + 1) % n {
-							if s.ring[j] < 0 || (tcp && !will[r][s.ring[j]]) {
-								ok = false
-							}
-							if j == s.wp {
-								break
-							}
-						}
-						if ok {
-							for s.ring[s.wp] >= 0 {
-								drainOne(r)
-							}
-						} else {
-							nilW(r)
-							continue
-						}
+					// detached: silently dropped; if this very packet is delivered later, the detachment
+					// was placed too early
+					if will[r][w.idx] {
+						reject(r)
 					}
-					s.ring[s.wp] = w.idx
-					s.wp = (s.wp + 1) % len(s.ring)
 					continue
 				}
 				if len(s.queue) >= hp.q {
@@ -1536,11 +1527,6 @@ func (hp *hop) buildTrace(forced map[[2]int]int) (string, []int) {
 				if pos < 0 {
 					inQ := false
 					for _, x := range s.queue {
-						if x == d.w {
-							inQ = true
-						}
-					}
-					for _, x := range s.ring {
 						if x == d.w {
 							inQ = true
 						}
@@ -1971,11 +1957,12 @@ func (l *smallBufListener) Accept() (net.Conn, error) {
 	return c, err
 }
 
-// runReorderRepro drives the server into the window between asyncprocessor.Close and writer = nil with a
+// runReorderRepro drives the server into the window between "writer detached" and "processor closed" with a
 // consumer that cannot make progress: a TCP reader whose callback blocks (so the server's consumer blocks in
 // its socket write with 0 < n < Q closures queued) asks for PAUSE; while destroyWriter waits for the
-// consumer, Q more packets are written; then the reader resumes.  With the defect present the reader receives
-// the packets pushed after Close in rotated order.
+// consumer, Q more packets are written; then the reader resumes.  Before e586e4c (Close first, writer = nil
+// afterwards) those packets were accepted by the closed ring buffer at stale positions and the reader
+// received them in rotated order; now they are dropped and the reader sees an in-order prefix.
 func (sc *scenario) runReorderRepro() *runResult {
 	res := &runResult{}
 	rng := hx.NewRand(sc.seed)
@@ -2124,8 +2111,25 @@ func (sc *scenario) runReorderRepro() *runResult {
 		}
 	}
 	dbg("filled")
-	// 2. let the reader take about 100 packets: the consumer pulls roughly as many, then blocks again
-	for i := 0; i < 100; i++ {
+	// 2. let the reader take packets in small batches until the consumer is seen to move again (a write is
+	//    accepted), refilling the queue each time: from then on the socket is full and every packet the reader
+	//    takes lets the consumer pull about one more
+	for released := 0; released < 4000; released += 50 {
+		for i := 0; i < 50; i++ {
+			tokens <- struct{}{}
+		}
+		time.Sleep(60 * time.Millisecond)
+		moved := false
+		for !writeOne() {
+			moved = true
+		}
+		if moved {
+			break
+		}
+	}
+	// 2b. now the queue is full again; half a queue of packets taken by the reader leaves about half a queue
+	//     of closures pending (0 < n < Q) with the consumer blocked once more
+	for i := 0; i < Q/2; i++ {
 		tokens <- struct{}{}
 	}
 	time.Sleep(150 * time.Millisecond)
@@ -2144,7 +2148,8 @@ func (sc *scenario) runReorderRepro() *runResult {
 	}
 	time.Sleep(40 * time.Millisecond)
 	dbg("pause seen")
-	// 4. push Q more packets into the closed ring (the Q+1-th is refused)
+	// 4. write Q more packets while destroyWriter waits for the blocked consumer (before e586e4c they were
+	//    accepted by the closed ring at stale positions; now the writer is already detached: dropped)
 	for i := 0; i < Q+2; i++ {
 		writeOne()
 	}
@@ -2310,24 +2315,12 @@ func main() {
 	tlsCert = cert
 	probeRecvBufferSize()
 
-	// corpus: the known finding, reproduced deterministically before anything else
+	// corpus / regression (fixed by e586e4c): the schedule that made a TCP reader receive packets out of order
+	// while its PAUSE was processed; it must now pass, and is reported again (class tcp-reorder-push-after-close)
+	// should the defect return
 	{
 		sc := &scenario{kind: "repro", transport: []string{"tcp"}, nMedias: 1, nFormats: []int{1}, nReaders: 1, q: 256, seed: 7, maxPayload: 1460}
-		var res *runResult
-		for try := 0; try < 3; try++ {
-			res = sc.runReorderRepro()
-			if res.fatal == "" && len(res.hops) > 0 {
-				found := false
-				for _, f := range res.hops[0].oracle(sc) {
-					if f.class == "tcp-reorder-push-after-close" {
-						found = true
-					}
-				}
-				if found {
-					break
-				}
-			}
-		}
+		res := sc.runReorderRepro()
 		ctx.Eval()
 		ctx.Kind("corpus:reorder-repro")
 		if res.fatal != "" {
@@ -2337,9 +2330,10 @@ func main() {
 				ctx.Failf(0, "scenario-step-failed", sc.String(), "%s", note)
 			}
 			hp := res.hops[0]
+			fails := hp.oracle(sc) // also identifies the deliveries, which the trace needs
 			idx := ctx.Corr(hp.caseLine(), "1")
 			ctx.Nontrivial(sc.String())
-			for _, f := range hp.oracle(sc) {
+			for _, f := range fails {
 				ctx.Failf(idx, f.class, sc.String(), "hop %s: %s", hp.name, f.detail)
 			}
 		}
